@@ -993,7 +993,9 @@ CONTROLS = [
     ("meter fallback lookup asserts the opposite", f"{GEN}._formula_generator",
      "        assert meter.category == ComponentCategory.METER\n", "        assert meter.category != ComponentCategory.METER\n", "C12.METER"),
     ("CHP meters collected in a list (one entry per CHP)", f"{GEN}._chp_power_formula",
-     "        chp_meters: set[int] = set()\n", "        chp_meters: list[int] = []\n", "C12.EMIT"),
+     "            chp_meters.add(meter.component_id)\n        return chp_meters\n",
+     "            chp_meters.add(meter.component_id)\n        return [m.component_id for c in chps for m in component_graph.predecessors(c.component_id)]\n",
+     "C12.EMIT"),
     ("pairing loop stops at the first paired device", f"{GEN}._formula_generator",
      "                        fallbacks.setdefault(predecessor, set()).add(component)\n                        continue\n",
      "                        fallbacks.setdefault(predecessor, set()).add(component)\n                        break\n", "C12.METER"),
